@@ -188,6 +188,40 @@ async def run_history(rep, case, sub):
             await cl.close()
 
 
+def body_odd(rep, case):
+    """The login was answered properly (session id present); a LATER reply of the exchange is short, truncated, garbage,
+    NUL bytes, the request echoed back or missing.  The client may give up or go on - whatever it still writes (a repeated
+    request, the rest of the exchange) is inside the statement's quantifier and must be a whole, signed frame."""
+    from . import c09
+    status, res, frames, sent, data = net.run(c09.exchange(case))
+    if status == "skip":
+        rep.label("skipped")
+        return
+    kind, step, fault = case["kind"], case["step"], case["fault"]
+    rlen = "none" if data is None else "1-43" if len(data) < 44 else "44-91" if len(data) < 92 else ">=92"
+    rep.tick("odd-replies", key=(kind, step, fault), nontrivial=len(frames) > step, sample=case,
+             labels=(f"op={kind}", f"fault={fault['type']}", f"reply-len={rlen}", f"frames-after-fault={max(0, len(frames) - step - 1)}"))
+    for i, f in enumerate(frames):
+        errs = wire.structural_errors(f)
+        if errs:
+            raise Violation(f"C01/{'+'.join(errs)}/op={kind}/after-odd-reply/{fault['type']}", case,
+                            "fe f0 | LE16(len) | ... f0 fe at 38 | ... | double CRC",
+                            {"frame_index": i, "of": len(frames), "len": len(f), "errors": errs, "frame": f.hex()[:400]})
+
+
+def strat_odd():
+    from . import c09
+
+    def fit(case):
+        case["step"] = max(1, case["step"])              # the login reply itself stays good: the statement's precondition
+        if case["fault"]["type"] == "empty-read":
+            case["fault"] = {"type": "prefix", "n": 1 + case["salt"] % 91}     # a short but non-empty part of the right reply
+        case.pop("idle_before", None)
+        case["retries"] = case["salt"] % 2
+        return c09._fit(case)
+    return c09.strat_garbage().map(fit)
+
+
 def crafted_name(device_id, session, ts, n):
     """A 32-byte name whose last four bytes equal the signature of everything that precedes them in the frame: a
     'this packet looks signed already' shortcut would then leave the frame unsigned."""
@@ -254,4 +288,5 @@ def subchecks(tier):
     subs.append(Sub("slow-device", body_slow, cases=cases_slow(tier), shards=4, exhaustive=True))
     subs.append(Sub("histories", lambda rep, case: net.run(run_history(rep, case, "histories")), strategy=strat_history,
                     n=20_000 if tier == "thorough" else 250, shards=16 if tier == "thorough" else 2))
+    subs.append(Sub("odd-replies", body_odd, strategy=strat_odd, n=30_000 if tier == "thorough" else 600, shards=16 if tier == "thorough" else 4))
     return subs
